@@ -35,6 +35,7 @@ from apischema.typing import (
     get_type_hints,
     is_annotated,
     is_type_var,
+    is_typed_dict,
     is_union,
     typing_origin,
 )
@@ -156,7 +157,10 @@ def typed_wraps(wrapped: Func) -> Callable[[Callable], Func]:
 def is_subclass(tp: AnyType, base: AnyType) -> bool:
     tp, base = get_origin_or_type(tp), get_origin_or_type(base)
     return tp == base or (
-        isinstance(tp, type) and isinstance(base, type) and issubclass(tp, base)
+        isinstance(tp, type)
+        and isinstance(base, type)
+        and not is_typed_dict(base)  # TypedDict doesn't support class checks
+        and issubclass(tp, base)
     )
 
 
